@@ -77,7 +77,7 @@ class State:
         self.slots = {}
 
 
-QS = ["same", "compat", "float", "incompat", "other_dim"]
+QS = ["same", "compat", "float", "incompat", "other_dim", "Qnd_compat", "nd"]
 
 
 def make_q(kind):
@@ -90,6 +90,13 @@ def make_q(kind):
         a = osyris.Array(np.array([50.0, 25.0, 200.0]), unit="cm")
     elif kind == "incompat":
         a = osyris.Array(np.array([1.0, 2.0, 3.0]), unit="s")
+    elif kind == "Qnd_compat":
+        # an array-valued pint Quantity in another unit of the same dimension (its buffer belongs to the caller)
+        q = np.array([50.0, 25.0, 200.0]) * osyris.units("cm")
+        return q, np.array([50.0, 25.0, 200.0]), M2.dims_of(cm=1), 0.0
+    elif kind == "nd":
+        v = np.array([2.0, 0.5, 4.0])
+        return v, v.copy(), M2.dims_of(), 0.0
     elif kind == "other_dim":
         a = osyris.Array(np.array([2.0, 0.5, 4.0]), unit="s")
     else:
@@ -668,7 +675,7 @@ def views_work(payload):
 def ops_for(thorough):
     ops = [["store", "A0", "G0", "a"], ["store", "A0", "G1", "a"], ["store", "V0", "G0", "v"], ["store", "X", "G1", "x"],
            ["store_group", "G0", "g"]]
-    pairs = [("iadd", "compat"), ("imul", "float"), ("itruediv", "compat"), ("isub", "incompat"), ("imul", "other_dim")]
+    pairs = [("iadd", "compat"), ("imul", "float"), ("itruediv", "compat"), ("isub", "incompat"), ("imul", "other_dim"), ("iadd", "Qnd_compat"), ("imul", "nd")]
     if thorough:
         pairs = [(o, q) for o in IOPS for q in QS]
     for tgt in ("A0", "V0", "X", "G0[a]"):
